@@ -216,6 +216,24 @@ CLAIMS = {
              'isclose-based boundary detection, NumPy fancy-index semantics '
              'and floating-point ties are not decided; sub-partition '
              'constructors insert/append/squeeze are not covered.'),
+    'C19': dict(
+        cat='other', ref='DESIGN.md section 2, C19',
+        tech='symbolic interpretation of the rotation-matrix code to '
+             'polynomial matrices and reduction modulo cos^2+sin^2=1 / '
+             '|axis|=1; symbolic differentiation of detector surfaces; '
+             'einsum index evaluation; constructor-argument role rule; '
+             'exact evaluation of factory formulas at rational witnesses',
+        text='Rotation matrices are proved orthonormal with determinant one '
+             'for ALL angles and unit axes (polynomial identities); the five'
+             ' surface_deriv implementations are proved to be the derivative'
+             ' of surface; det_point_position / det_to_src compositions are '
+             'proved on symbolic matrices; geometry slicing forwards every '
+             'constructor parameter; factory detector extents are refuted or'
+             ' confirmed at exact witness points against an elementary-'
+             'geometry oracle (known finding: cone/helical detector width).',
+        note='Trusted: ' + TB + '. Broadcast/vectorised evaluation, Nyquist '
+             'counts and the helical detector height are not decided; R5 is '
+             'refutation at witness points, not a proof of coverage.'),
 }
 
 NOT_YET = 'check not implemented yet in this commit (DESIGN.md section 6 build order)'
